@@ -16,7 +16,7 @@ CLAIMS = {
          "Boost.Interval's outward rounding and transcendental enclosures are assumed as hypotheses (BoostSound); Eigen kernel ulp slack is empirical.",
          "Lean 4 proof (flag completeness per opcode + tape induction) + exhaustive order-type correspondence"),
  "C03": ('Proved: complete-table lemmas by kernel decide over tables regenerated from the mesher sources and the running library, the lifting theorems marching_closed (closed, consistently oriented) and marching_manifold (each directed side at most once) for ANY oriented tet complex satisfying the face-matching hypothesis (H) with distinct vertices / tet vertex sets, dc_quad_boundary, marching_no_repeated_vertex, collect_children_once. Tie: every tet / quad the real meshers march is dumped through hooks; the model re-marches them and must reproduce the real triangles; (H) and the side hypotheses are checked on the dumped complex. Oracle: directed-edge pairing, repeated vertices, index validity on the real meshes.',
-         'Hypothesis (H) for the real (adaptive) octree is validated per run, not proved; interleavings are sampled (workers 1..16).',
+         'Hypothesis (H) is PROVED for every uniform simplex grid (grid_hypH ... grid_marching_closed_manifold); for the adaptive octree (mixed levels, collapsed cells) it is validated per run on the dumped complex; interleavings are sampled (workers 1..16).',
          'Lean 4 proof (table lemmas by decide + double-counting lifting theorems) over tables regenerated from source + tet/quad trace replay'),
  "C04": ("Theorems: tet_triangle_outward (decide over all masks), search_bracket / search_finds_zero (edge search brackets a zero to L/50625 by the intermediate value theorem, constants regenerated from source), vertex_in_region (convexity), winding_partial (combinatorial part). Oracle on real meshes: winding number by solid angle at points with |f| > k*min_feature, vertices inside the region and within k' * min_feature of the level set, all three algorithms, with and without VolTree.",
          "The geometric winding-number and distance clauses are oracle-only (float geometry); DC vertex placement is not derived.",
